@@ -5,7 +5,7 @@
    the reference spec) recompute them under vm_compute.  Flag sets are compared
    as sets, everything else literally. *)
 From PV Require Import Base.Prelude Wire.SeqSet RefModel.Flags RefModel.Model RefModel.Spec
-  RefModel.Proofs.
+  RefModel.InitOk.
 Local Open Scope N_scope.
 
 Definition optN_eqb := option_eqb N.eqb.
@@ -19,8 +19,9 @@ Definition item_eqb (a b : fitem) : bool :=
 Definition code_eqb (a b : code) : bool :=
   match a, b with
   | CNone, CNone | CReadOnly, CReadOnly | CReadWrite, CReadWrite | CTryCreate, CTryCreate
-  | CNonexistent, CNonexistent | CExpungeIssued, CExpungeIssued => true
-  | CAppendUid x, CAppendUid y => x =? y
+  | CNonexistent, CNonexistent | CExpungeIssued, CExpungeIssued
+  | CAlreadyExists, CAlreadyExists | CCannot, CCannot | CServerBug, CServerBug => true
+  | CAppendUid x, CAppendUid y => listN_eqb x y
   | CCopyUid s1 d1, CCopyUid s2 d2 => listN_eqb s1 s2 && listN_eqb d1 d2
   | _, _ => false
   end.
@@ -33,6 +34,10 @@ Definition untagged_eqb (a b : untagged) : bool :=
   | UMoved c, UMoved d => code_eqb c d
   | USelect e1 r1 u1 f1 p1, USelect e2 r2 u2 f2 p2 =>
     (e1 =? e2) && (r1 =? r2) && (u1 =? u2) && optN_eqb f1 f2 && fset_eqb p1 p2
+  | UStatus b1 m1 r1 n1 v1 s1, UStatus b2 m2 r2 n2 v2 s2 =>
+    (b1 =? b2) && (m1 =? m2) && (r1 =? r2) && (n1 =? n2) && (v1 =? v2) && (s1 =? s2)
+  | USearch x, USearch y => listN_eqb x y
+  | UBye, UBye => true
   | _, _ => false
   end.
 Definition out_eqb (a b : out) : bool :=
@@ -43,18 +48,22 @@ Definition msg_eqb (a b : msg) : bool :=
   (m_uid a =? m_uid b) && fset_eqb (m_flags a) (m_flags b) && (m_date a =? m_date b)
   && (m_cid a =? m_cid b) && Bool.eqb (m_recent a) (m_recent b).
 
-(* dump of one mailbox by the probe: name, messages, UIDNEXT - 1 *)
-Definition dump := list (N * list msg * N).
+(* dump of one mailbox by the probe: name, and (messages, UIDNEXT - 1, UIDVALIDITY)
+   or None when no mailbox of that name exists *)
+Definition dump := list (N * option (list msg * N * N)).
 Definition dump_ok (bs : boxes) (d : dump) : bool :=
-  forallb (fun e => let '(n, l, mx) := e in
-             match lookup n bs with
-             | Some b => eqb_list msg_eqb (b_msgs b) l && (b_maxuid b =? mx)
-             | None => false
+  forallb (fun e =>
+             match snd e, lookup (fst e) bs with
+             | Some (l, mx, uv), Some b =>
+               eqb_list msg_eqb (b_msgs b) l && (b_maxuid b =? mx) && (b_uidv b =? uv)
+             | None, None => true
+             | _, _ => false
              end) d.
 Definition boxes_eqb (a b : boxes) : bool :=
   eqb_list (fun x y => (fst x =? fst y) && eqb_list msg_eqb (b_msgs (snd x)) (b_msgs (snd y))
                        && (b_maxuid (snd x) =? b_maxuid (snd y))
-                       && Bool.eqb (b_ro (snd x)) (b_ro (snd y))) a b.
+                       && Bool.eqb (b_ro (snd x)) (b_ro (snd y))
+                       && (b_uidv (snd x) =? b_uidv (snd y))) a b.
 Definition ssel_eqb (a b : option ssel) : bool :=
   match a, b with
   | None, None => true
@@ -63,57 +72,63 @@ Definition ssel_eqb (a b : option ssel) : bool :=
   | _, _ => false
   end.
 
-Definition step_obs := (cmd * out * dump)%type.
+(* one observed step: a command with its response, or a change made by another
+   connection; then the probe dump *)
+Definition step_obs := (label * option out * dump)%type.
 Definition case := (backend * boxes * list step_obs)%type.
 
-(* model vs implementation, and spec vs model, step by step *)
-Fixpoint chk_steps (st : state) (sp : sstate) (l : list step_obs) : bool :=
+Definition oout_eqb (a b : option out) : bool :=
+  match a, b with Some x, Some y => out_eqb x y | None, None => true | _, _ => false end.
+Definition spec_agrees (sp : sstate) (st1 : state) (c : cmd) (om : out) : bool * sstate :=
+  let '(sp1, os) := spec_step sp c in
+  (out_eqb os om && boxes_eqb (sp_boxes sp1) (st_boxes st1)
+   && ssel_eqb (sp_sel sp1) (option_map abs_sel (st_sel st1)), sp1).
+
+(* model vs implementation for every step; the plain spec vs the model in lock step
+   for as long as no other connection has interfered ([sp] = Some _) *)
+Fixpoint chk_steps (st : state) (sp : option sstate) (l : list step_obs) : bool :=
   match l with
   | [] => true
-  | (c, o, d) :: r =>
-    let '(st1, om) := step st c in
-    let '(sp1, os) := spec_step sp c in
-    out_eqb om o && dump_ok (st_boxes st1) d
-    && out_eqb os om && boxes_eqb (sp_boxes sp1) (st_boxes st1)
-    && ssel_eqb (sp_sel sp1) (option_map abs_sel (st_sel st1))
-    && chk_steps st1 sp1 r
+  | (lb, o, d) :: r =>
+    let '(st1, om) := step_l st lb in
+    let '(ok, sp1) :=
+      match lb, sp, om with
+      | LCmd c, Some s, Some x => let '(a, s1) := spec_agrees s st1 c x in (a, Some s1)
+      | _, _, _ => (true, None)
+      end in
+    oout_eqb om o && dump_ok (st_boxes st1) d && ok && chk_steps st1 sp1 r
   end.
+
 (* the initial state satisfies the hypothesis of the refinement theorem
    (Proofs.init_ok_Inv / init_ok_maildir_Inv) *)
 Definition case_init_ok (bk : backend) (bs : boxes) : bool :=
   let st := mkState bk bs None in
   match bk with
   | Dict => init_ok st
-  | Maildir =>
-    match bs with
-    | [] => true
-    | (_, b0) :: _ =>
-      init_ok_maildir st (b_perm b0)
-      && forallb (fun nb => eqb_list flag_eqb (b_perm (snd nb)) (b_perm b0)) bs
-    end
+  | Maildir => init_ok_maildir st
   end.
 Definition chk_case (c : case) : bool :=
   let '(bk, bs, l) := c in
   let st := mkState bk bs None in
-  case_init_ok bk bs && chk_steps st (abs st) l.
+  case_init_ok bk bs && chk_steps st (Some (abs st)) l.
 
-(* diagnostics for a failing case: per step (model=impl?, dump ok?, spec=model?) and
-   the model's response *)
-Fixpoint diag_steps (st : state) (sp : sstate) (l : list step_obs)
-  : list (bool * bool * bool * out) :=
+(* diagnostics for a failing case: per step (model=impl?, dump ok?, spec=model?) *)
+Fixpoint diag_steps (st : state) (sp : option sstate) (l : list step_obs)
+  : list (bool * bool * bool * option out) :=
   match l with
   | [] => []
-  | (c, o, d) :: r =>
-    let '(st1, om) := step st c in
-    let '(sp1, os) := spec_step sp c in
-    (out_eqb om o, dump_ok (st_boxes st1) d,
-     out_eqb os om && boxes_eqb (sp_boxes sp1) (st_boxes st1)
-     && ssel_eqb (sp_sel sp1) (option_map abs_sel (st_sel st1)), om)
-    :: diag_steps st1 sp1 r
+  | (lb, o, d) :: r =>
+    let '(st1, om) := step_l st lb in
+    let '(ok, sp1) :=
+      match lb, sp, om with
+      | LCmd c, Some s, Some x => let '(a, s1) := spec_agrees s st1 c x in (a, Some s1)
+      | _, _, _ => (true, None)
+      end in
+    (oout_eqb om o, dump_ok (st_boxes st1) d, ok, om) :: diag_steps st1 sp1 r
   end.
 Definition diag_case (c : case) :=
   let '(bk, bs, l) := c in
-  let st := mkState bk bs None in diag_steps st (abs st) l.
+  let st := mkState bk bs None in diag_steps st (Some (abs st)) l.
 
 (* flags.py on its own *)
 (* (op, set, operand, FlagOp.apply result) *)
